@@ -70,6 +70,7 @@ pub struct Outc {
     pub responses: usize,
     pub max_pending_gates: usize,
     pub stopped: bool,
+    pub wr_signalled: bool,
 }
 
 pub async fn run_case(case: &Case, ch: &mut dyn Choose) -> Outc {
@@ -86,7 +87,7 @@ pub async fn run_case(case: &Case, ch: &mut dyn Choose) -> Outc {
     }
     let v5 = case.role.is_v5();
     let mut c = conn::start(&cfg, app.clone()).await;
-    let mut out = Outc { violations: vec![], log: vec![], sig: 0, trace: vec![], responses: 0, max_pending_gates: 0, stopped: false };
+    let mut out = Outc { violations: vec![], log: vec![], sig: 0, trace: vec![], responses: 0, max_pending_gates: 0, stopped: false, wr_signalled: false };
 
     // plans: publish handlers and protocol handlers are taken in arrival order
     let mut expected: Vec<(&'static str, u16)> = Vec::new();
@@ -224,6 +225,14 @@ pub async fn run_case(case: &Case, ch: &mut dyn Choose) -> Outc {
             }
             Act::BpOn => {
                 c.peer.set_budget(0);
+                // the application writes while the peer does not read: the write buffer passes its
+                // high watermark and the connection task really enters its back-pressure state
+                if c.has_sink() {
+                    let sink = c.sink();
+                    for k in 0..2u8 {
+                        let _ = sink.send_qos0(&crate::sink::PubSpec::new("bp/fill", vec![k; 60]));
+                    }
+                }
                 bp_on = true;
                 bp_used = true;
             }
@@ -259,6 +268,7 @@ pub async fn run_case(case: &Case, ch: &mut dyn Choose) -> Outc {
             ));
         }
     }
+    out.wr_signalled = app.count(|e| matches!(e, Ev::CtlEnter { what, .. } if what == "wr(true)")) > 0;
     out.sig = app.trace_signature();
     out.log = app.render(60);
     c.finish().await;
@@ -367,6 +377,7 @@ pub fn run(opts: &Opts) -> i32 {
                 if case.backpressure {
                     rep.count("runs_with_backpressure_episode", 1);
                 }
+                rep.count("runs_in_which_write_backpressure_was_signalled", o.wr_signalled as u64);
                 rep.max("max_overlapping_gated_handlers", o.max_pending_gates as u64);
                 for (class, what) in &o.violations {
                     rep.violation(Violation {
@@ -383,6 +394,7 @@ pub fn run(opts: &Opts) -> i32 {
         r.after()
     });
     rep.assume("client roles: the type of the QoS 2 acknowledgement is C03's subject; only order and presence are judged here");
+    rep.require("runs_in_which_write_backpressure_was_signalled", 200);
     rep.require("responses_order_checked", 10_000);
     rep.require("cases_enumerated_completely", 500);
     rep.finish()
